@@ -286,3 +286,92 @@ class get_subview_dim_contract:
 
     def canary(sh, a, ret):
         check("canary: always the first dynamic size", len(a[0].sizes) > 0 and ret is a[0].sizes[0])
+
+
+# =====================================================================================
+# MoveMemrefDims as a whole: the value that replaces a hoisted memref.dim denotes the same run-time extent
+# =====================================================================================
+from xdsl.dialects import memref as _memref  # noqa: E402
+from xdsl.dialects.builtin import MemRefType, i32  # noqa: E402
+from xdsl.ir import Use  # noqa: E402
+
+import snaxc.transforms.reuse_memref_allocs as rma  # noqa: E402
+
+
+class UserOp(Operation):
+    def __init__(self, operands):
+        self._init_op(list(operands), [], [])
+
+
+MOVE_SHAPES = [dict(outer=o, inner=i, pos=p) for o in (0, 1) for i in (0, 1) for p in (0, 1)] + [dict(outer=0, inner=None, pos=0), dict(outer=1, inner=None, pos=1)]
+
+
+@contract
+class MoveMemrefDims_contract:
+    """for { %d = dim %A, c_inner ; use(%d) ; %sv = subview %A [..][%d or static ..] ; %x = dim %sv, c_outer ; alloc(%x) }:
+    when %x is replaced by a value defined in front of the loop, that value is the extent %x had - for all run-time
+    shapes (in particular non-square ones: the two dims may query DIFFERENT indices)"""
+    target = "snaxc.transforms.reuse_memref_allocs.MoveMemrefDims.match_and_rewrite"
+    shapes = MOVE_SHAPES
+    native = False
+    total = True
+    permissive = True
+    compare_ret = False
+
+    def args(sh, sym):
+        n = [sym.int("n0", 1), sym.int("n1", 1)]
+        fb = Block([], [MemRefType(i32, [DYNAMIC_INDEX, DYNAMIC_INDEX])])
+        A = fb.args[0]
+        A.rt_shape = n
+        c = [arith.ConstantOp.from_int_and_width(k, IndexType()) for k in (0, 1)]
+        body = Block([], [IndexType()])
+        ops = []
+        # the subview's size list: position `pos` is dynamic and given by an in-loop dim of A (or by A's static-looking size 4)
+        static_sizes = [4, 4]
+        sizes = []
+        rt = [4, 4]
+        d_in = None
+        if sh["inner"] is not None:
+            d_in = _memref.DimOp(A, c[sh["inner"]].results[0])
+            other = UserOp([d_in.results[0]])
+            ops = [d_in, other]
+            static_sizes[sh["pos"]] = DYNAMIC_INDEX
+            sizes = [d_in.results[0]]
+            rt[sh["pos"]] = den(d_in)
+        sv = _memref.SubviewOp(A, MemRefType(i32, [DYNAMIC_INDEX if x == DYNAMIC_INDEX else 4 for x in static_sizes]), [], sizes, [], [0, 0], static_sizes, [1, 1])
+        sv.results[0].rt_shape = rt
+        x = _memref.DimOp(sv.results[0], c[sh["outer"]].results[0])
+        alloc = _memref.AllocOp.get(i32, 64, [DYNAMIC_INDEX], [x])
+        ops = ops + [sv, x, alloc, scf.YieldOp()]
+        for o in ops:
+            body.add_op(o)
+        loop = scf.ForOp(c[0].results[0], c[1].results[0], c[1].results[0], [], body)
+        for o in c + [loop]:
+            fb.add_op(o)
+        Region([fb])
+        x.results[0].uses.append(Use(alloc, 0))
+        if d_in is not None:
+            d_in.results[0].uses.append(Use(other, 0))
+            d_in.results[0].uses.append(Use(sv, 1))
+        return [x, loop, n, body]
+
+    def run(sh, a):
+        rw = PatternRewriter(a[0])
+        rma.MoveMemrefDims().match_and_rewrite(a[0], rw)
+        return rw.log
+
+    def ensures(sh, a, ret):
+        x, loop, n, body = a
+        rep = x.results[0].replaced
+        if rep is None:
+            check("left alone: nothing is inserted either", not any(e[0] == "insert_op" for e in ret))
+            return
+        v = rep[0]
+        check("the value that replaces the dim denotes the same run-time extent, for every run-time shape", den(v) == den(x.results[0]))
+        o = v.owner
+        inserted_before_loop = any(e[0] == "insert_op" and e[2].kind == "before" and e[2].anchor is loop and any(q is o for q in e[1]) for e in ret)
+        outside = isinstance(o, Operation) and o.parent is not None and not any(o is q for q in body.ops)
+        check("... and is defined in front of the loop", inserted_before_loop or outside)
+
+    def canary(sh, a, ret):
+        check("canary: the dim is never replaced", a[0].results[0].replaced is None)
